@@ -187,7 +187,9 @@ fn run_serial(mode: Mode, cbdur_us: u64) -> (String, String, String, String) {
             }
         }));
     }
-    std::thread::sleep(Duration::from_millis(220));
+    // long callbacks (longer than the 50 ms sampling period of the dispatch threads) get a longer run
+    let long = cbdur_us >= 50_000;
+    std::thread::sleep(Duration::from_millis(if long { 900 } else { 220 }));
     stop_flag.store(true, Ordering::Relaxed);
     for h in hs {
         let _ = h.join();
@@ -197,7 +199,7 @@ fn run_serial(mode: Mode, cbdur_us: u64) -> (String, String, String, String) {
     let n = seq.load(Ordering::SeqCst);
     let ov = overlaps.load(Ordering::SeqCst);
     let per_thread: Vec<usize> = entries.lock().unwrap().values().copied().collect();
-    let both = per_thread.iter().filter(|c| **c >= 100).count() >= 2 || (mode == Mode::Enqueue && n > 200);
+    let both = per_thread.iter().filter(|c| **c >= if long { 2 } else { 100 }).count() >= 2 || (mode == Mode::Enqueue && n > if long { 4 } else { 200 });
     let case = format!("node serial {} {}", mode.name(), cbdur_us);
     let ok = ov == 0 && returned.is_some();
     (
@@ -517,7 +519,7 @@ fn main() {
             let n = arg_u64(2, 1);
             for _ in 0..n {
                 for m in modes {
-                    for d in [0u64, 5, 1000] {
+                    for d in [0u64, 5, 1000, 80_000] {
                         let (c, i, o, t) = run_serial(m, d);
                         emit(&mut out, &c, &i, &o, &t);
                     }
